@@ -53,12 +53,6 @@ theorem tie_hllCount (hash nb : UInt64) (hp : nb.toNat ≤ 32) :
     omega
   simp [hllCount, toNat_goShr, hk]
 
-/-- in-memory `Update`: the stored `uint(uint8(count))` is `HLL.valueOf`. -/
-theorem tie_hllStoredValueMem (hash nb : UInt64) (hp : nb.toNat ≤ 32) :
-    (hllStoredValueMem (hllCount hash nb)).toNat = HLL.valueOf hash.toNat nb.toNat := by
-  have h := tie_hllCount hash nb hp
-  simp [hllStoredValueMem, toNat_trunc8, HLL.valueOf, h]
-
 /-- Redis `Update`: the `uint8(count)` passed to `updateRegisters` is `HLL.valueOf`. -/
 theorem tie_hllStoredValueRedis (hash nb : UInt64) (hp : nb.toNat ≤ 32) :
     (hllStoredValueRedis (hllCount hash nb)).toNat = HLL.valueOf hash.toNat nb.toNat := by
@@ -68,11 +62,11 @@ theorem tie_hllStoredValueRedis (hash nb : UInt64) (hp : nb.toNat ≤ 32) :
 /-- outside the range (more than 2^32 registers) model and code differ: in Go `32 - p` wraps to a
     shift count ≥ 64 and the count is 0, the `Nat` model truncates `32 - p` to 0. -/
 theorem hllValue_differs_above_32 :
-    (hllStoredValueMem (hllCount 1 33)).toNat = 0 ∧ HLL.valueOf 1 33 = 1 := by decide
+    (hllStoredValueRedis (hllCount 1 33)).toNat = 0 ∧ HLL.valueOf 1 33 = 1 := by decide
 
 example : (hllRegisterIndex 1 4).toNat = 60 ∧ HLL.indexOf 1 4 = 60 := by decide
 example : (hllRegisterIndex 5 64).toNat = 65 ∧ HLL.indexOf 5 64 = 65 := by decide
-example : (hllStoredValueMem (hllCount 0xABCDEF0123456789 4)).toNat = 0x12
+example : (hllStoredValueRedis (hllCount 0xABCDEF0123456789 4)).toNat = 0x12
     ∧ HLL.valueOf 0xABCDEF0123456789 4 = 0x12 := by decide
 
 
